@@ -94,6 +94,11 @@ func newResultGroupJob[T, R any](bufferSize int) *resultGroupJob[T, R] {
 		wgc: helpers.NewWgCounter(bufferSize),
 	}
 
+	// nothing will ever finish in an empty batch: its stream is complete already
+	if bufferSize == 0 {
+		gj.Response.Close()
+	}
+
 	return gj
 }
 
@@ -127,9 +132,8 @@ func (gj *resultGroupJob[T, R]) Close() error {
 		return err
 	}
 
-	gj.wgc.Done()
-
-	if gj.wgc.Count() == 0 {
+	// only the item that brings the count to zero closes the stream
+	if gj.wgc.Done() {
 		gj.Response.Close()
 	}
 
@@ -155,7 +159,7 @@ type EnqueuedErrGroupJob interface {
 }
 
 func newErrorGroupJob[T any](bufferSize int) *errorGroupJob[T] {
-	return &errorGroupJob[T]{
+	gj := &errorGroupJob[T]{
 		errorJob: errorJob[T]{
 			job: job[T]{
 				wg: sync.WaitGroup{},
@@ -164,6 +168,13 @@ func newErrorGroupJob[T any](bufferSize int) *errorGroupJob[T] {
 		},
 		wgc: helpers.NewWgCounter(bufferSize),
 	}
+
+	// nothing will ever finish in an empty batch: its stream is complete already
+	if bufferSize == 0 {
+		gj.Response.Close()
+	}
+
+	return gj
 }
 
 func (gj *errorGroupJob[T]) NumPending() int {
@@ -196,9 +207,8 @@ func (gj *errorGroupJob[T]) Close() error {
 		return err
 	}
 
-	gj.wgc.Done()
-
-	if gj.wgc.Count() == 0 {
+	// only the item that brings the count to zero closes the stream
+	if gj.wgc.Done() {
 		gj.Response.Close()
 	}
 
